@@ -489,6 +489,22 @@ def cstepCore (s : CSt) (kind : String) (args impl : List String) : Option (CSt 
         some ({ s with sw := KrakenModel.Swarm.step crc32 s.sw (.disconnect 0 k), live := s.live.filter (· != k) }, "closed", pf)
       | ["tick", _] => some (s, "ok", [])
       | ["state"] => some (s, "ok", [])
+      | ["aresult", offerT] =>
+        -- announceResultEvent with a handout: the agent dials the offered peers it is not connected to and has
+        -- not blacklisted, while it has free slots; every dial is refused (dialfail: blacklisted)
+        let offer := (list? offerT).filterMap peer?
+        let (sw', _, dialled) := offer.foldl (fun (acc : Swarm × Nat × List Nat) k =>
+          let (sw, pending, ds) := acc
+          match sw.peers[0]? with
+          | some p0 =>
+            if p0.conns.length + pending ≥ maxc then acc
+            else if p0.conns.contains k || p0.blacklist.contains k || ds.contains k then acc
+            else (sw, pending + 1, ds ++ [k])
+          | none => acc) (s.sw, 0, [])
+        let sw'' := dialled.foldl (fun sw k => KrakenModel.Swarm.step crc32 sw (.dialfail 0 k)) sw'
+        let pf := if (kv? impl "ready").getD "?" == "0" then
+          ["side=impl key=announce-starved after the announce response the torrent is not ready to announce again: it will never look for peers again"] else []
+        some ({ s with sw := sw'' }, s!"ok ready=1 dialled={listTok (dialled.map cname)}", pf)
       | _ => none
     match pre with
     | none => none
@@ -499,14 +515,17 @@ def cstepCore (s : CSt) (kind : String) (args impl : List String) : Option (CSt 
             (fun (st : CSt) k => { st with sw := KrakenModel.Swarm.step crc32 st.sw (.unblacklist 0 k) }) s1
         | none => s1
       let (conns, bl) := match s2.sw.peers[0]? with | some p2 => (p2.conns, p2.blacklist) | none => ([], [])
-      let obs := [s!"res={res}", s!"active={cnames conns}", s!"sat={boolTok (conns.length == maxc)}",
+      let obs := (s!"res={res}".splitOn " ") ++ [s!"active={cnames conns}", s!"sat={boolTok (conns.length == maxc)}",
                   s!"free={boolTok (conns.length < maxc)}", s!"bl={cnames bl}"]
       let pf :=
         (implActive.filter fun k => !s2.live.contains k).map (fun k =>
           s!"side=impl key=dead-conn-holds-slot {cname k} is listed as an active connection although its connection ended or never existed") ++
         (if implFree == "0" && s2.live.length < maxc then
           [s!"side=impl key=slot-unavailable-below-limit no new connection is admitted with {s2.live.length} of {maxc} live connections"] else [])
-      some (s2, { obs := obs, branch := s!"c.{args.headD "?"}.{res}", propfails := (pf0 ++ pf).eraseDups })
+      let offered := match args with | ["aresult", o] => (list? o).length | _ => 0
+      let slots := maxc - pa.conns.length
+      let tag := if args.headD "" == "aresult" then (if offered > slots then "aresult.over" else "aresult.fits") else s!"{args.headD "?"}.{res}"
+      some (s2, { obs := obs, branch := s!"c.{tag}", propfails := (pf0 ++ pf).eraseDups })
 
 def cslotStep (s : CSt) (kind : String) (args impl : List String) : Option (CSt × StepOut) :=
   if kind = "op" ∧ args = ["done"] then
